@@ -1,5 +1,6 @@
 import GqlProofs.Schema.NoPanic
 import GqlProofs.Schema.RelExact
+import GqlProofs.Schema.Sound
 import GqlProofs.Schema.Examples
 /-
   C07 — a loaded schema is closed and consistent.  Property theorems about `Gql.Load.load`
@@ -457,3 +458,39 @@ theorem C07_prelude_present {sd : SchemaDoc} {s : Schema} (h : load sd = .ok s) 
   · intro p hp'
     obtain ⟨d, hd, hk⟩ := buildState_declares F.built (hp.types p hp')
     exact typeIs_mkSchema hd (by simp [hk])
+
+/- ------------------------------------------------------------------ load vs WellFormed -/
+
+/-
+  Full statement (FALSE for the code as it is, in the ⇒ direction):
+    theorem C07_load_iff_wellformed (sd) : (load sd).isOk = true ↔ Spec.WellFormed sd
+  Witnesses: R7c (`enum E { __A }` loads), R7a (`f(a: String)` implementing `f(a: String!)` loads), and
+  R7b (redeclared directives, see C17_directive_perm_counterexample).
+-/
+
+/-- R7c, kernel-checked: an enum value named `__A` is accepted -/
+theorem C07_load_iff_wellformed_counterexample_enumValue :
+    (load Examples.r7cDoc).isOk = true ∧ Spec.enumValueNamesNotReserved (.ofDoc Examples.r7cDoc) = false ∧
+    ¬ Spec.WellFormed Examples.r7cDoc := by
+  refine ⟨by decide, by decide, fun h => absurd h.enumValueNamesNotReserved (by decide)⟩
+
+/-- R7a, kernel-checked: an implementing field may weaken a non-null argument -/
+theorem C07_load_iff_wellformed_counterexample_argType :
+    (load Examples.r7aDoc).isOk = true ∧ Spec.implementsFieldsOK (.ofDoc Examples.r7aDoc) = false ∧
+    ¬ Spec.WellFormed Examples.r7aDoc := by
+  refine ⟨by decide, by decide, fun h => absurd h.implementsFieldsOK (by decide)⟩
+
+/-- **soundness, partial** (the ⇒ direction for the type-structure clauses): a document the loader
+    accepts has unique type names, unique field names per merged type, resolving and correctly
+    positioned field types, interfaces that are interfaces, union members that are objects, existing
+    roots, transitively declared interfaces, no empty object/interface/input/enum, no reserved type or
+    field names, at most one `schema` block, extensions of the base's kind, and no enum value named
+    `true`/`false`/`null`.  (`hext`: extensions are not `builtIn` — the prelude has none.)
+    Not covered by a theorem: the directive clauses and `implementsFieldsOK` (judged by exploration),
+    and the two clauses the code violates (`enumValueNamesNotReserved`, `uniqueDirectiveNames`). -/
+theorem C07_load_sound_partial {sd : SchemaDoc} {s : Schema} (h : load sd = .ok s)
+    (hext : ∀ e ∈ sd.extensions, e.builtIn = false) : SoundClauses sd :=
+  load_sound h hext
+
+/-- non-vacuity of the spec: the small valid document is well formed and loads -/
+example : Spec.WellFormed Examples.okDoc ∧ (load Examples.okDoc).isOk = true := ⟨by decide, by decide⟩
